@@ -109,6 +109,7 @@ func getDenseWorkspace(r, c int, clear bool) *Dense {
 	w.mat.Stride = c
 	w.capRows = r
 	w.capCols = c
+	verifPoolGetF(verifPoolDense, w.mat.Data, clear)
 	return w
 }
 
@@ -116,6 +117,7 @@ func getDenseWorkspace(r, c int, clear bool) *Dense {
 // workspace pool. putDenseWorkspace must not be called with a matrix
 // where references to the underlying data slice have been kept.
 func putDenseWorkspace(w *Dense) {
+	verifPoolPutF(verifPoolDense, w.mat.Data)
 	poolDense[poolFor(uint(cap(w.mat.Data)))].Put(w)
 }
 
@@ -133,6 +135,7 @@ func getSymDenseWorkspace(n int, clear bool) *SymDense {
 	s.mat.N = n
 	s.mat.Stride = n
 	s.cap = n
+	verifPoolGetF(verifPoolSym, s.mat.Data, clear)
 	return s
 }
 
@@ -140,6 +143,7 @@ func getSymDenseWorkspace(n int, clear bool) *SymDense {
 // workspace pool. putSymDenseWorkspace must not be called with a matrix
 // where references to the underlying data slice have been kept.
 func putSymDenseWorkspace(s *SymDense) {
+	verifPoolPutF(verifPoolSym, s.mat.Data)
 	poolSymDense[poolFor(uint(cap(s.mat.Data)))].Put(s)
 }
 
@@ -165,6 +169,7 @@ func getTriDenseWorkspace(n int, kind TriKind, clear bool) *TriDense {
 	}
 	t.mat.Diag = blas.NonUnit
 	t.cap = n
+	verifPoolGetF(verifPoolTri, t.mat.Data, clear)
 	return t
 }
 
@@ -172,6 +177,7 @@ func getTriDenseWorkspace(n int, kind TriKind, clear bool) *TriDense {
 // workspace pool. putTriWorkspace must not be called with a matrix
 // where references to the underlying data slice have been kept.
 func putTriWorkspace(t *TriDense) {
+	verifPoolPutF(verifPoolTri, t.mat.Data)
 	poolTriDense[poolFor(uint(cap(t.mat.Data)))].Put(t)
 }
 
@@ -186,6 +192,7 @@ func getVecDenseWorkspace(n int, clear bool) *VecDense {
 		zero(v.mat.Data)
 	}
 	v.mat.N = n
+	verifPoolGetF(verifPoolVec, v.mat.Data, clear)
 	return v
 }
 
@@ -193,6 +200,7 @@ func getVecDenseWorkspace(n int, clear bool) *VecDense {
 // workspace pool. putVecDenseWorkspace must not be called with a matrix
 // where references to the underlying data slice have been kept.
 func putVecDenseWorkspace(v *VecDense) {
+	verifPoolPutF(verifPoolVec, v.mat.Data)
 	poolVecDense[poolFor(uint(cap(v.mat.Data)))].Put(v)
 }
 
@@ -211,6 +219,7 @@ func getCDenseWorkspace(r, c int, clear bool) *CDense {
 	w.mat.Stride = c
 	w.capRows = r
 	w.capCols = c
+	verifPoolGetC(w.mat.Data, clear)
 	return w
 }
 
@@ -218,6 +227,7 @@ func getCDenseWorkspace(r, c int, clear bool) *CDense {
 // workspace pool. putWorkspace must not be called with a matrix
 // where references to the underlying data slice have been kept.
 func putCDenseWorkspace(w *CDense) {
+	verifPoolPutC(w.mat.Data)
 	poolCDense[poolFor(uint(cap(w.mat.Data)))].Put(w)
 }
 
@@ -229,6 +239,7 @@ func getFloat64s(l int, clear bool) []float64 {
 	if clear {
 		zero(w)
 	}
+	verifPoolGetF(verifPoolFloats, w, clear)
 	return w
 }
 
@@ -236,6 +247,7 @@ func getFloat64s(l int, clear bool) []float64 {
 // workspace pool. putFloat64s must not be called with a slice
 // where references to the underlying data have been kept.
 func putFloat64s(w []float64) {
+	verifPoolPutF(verifPoolFloats, w)
 	poolFloat64s[poolFor(uint(cap(w)))].Put(&w)
 }
 
@@ -249,6 +261,7 @@ func getInts(l int, clear bool) []int {
 			w[i] = 0
 		}
 	}
+	verifPoolGetI(w, clear)
 	return w
 }
 
@@ -256,5 +269,6 @@ func getInts(l int, clear bool) []int {
 // workspace pool. putInts must not be called with a slice
 // where references to the underlying data have been kept.
 func putInts(w []int) {
+	verifPoolPutI(w)
 	poolInts[poolFor(uint(cap(w)))].Put(&w)
 }
